@@ -55,6 +55,8 @@ def histories(strict=False, guaranteed_bias=False, max_ticks=40):
         "cb_sends_every": st.sampled_from([0, 0, 2, 3]),
         # the client application runs a frame (update() + getMessages()) only every k-th step: 60 Hz server, 60/k Hz client
         "client_every": st.sampled_from([1, 1, 1, 2, 3, 6]),
+        # where the (virtual) clock starts: a small number, or a present-day epoch value (float spacing 2.4e-7 s)
+        "t0": st.sampled_from([1000.0, 1000.0, 1.7e9]),
         "burst": st.one_of(st.none(), st.none(), st.none(), st.fixed_dictionaries({
             "tick": st.integers(0, max_ticks), "side": st.sampled_from(["c", "s"]), "count": st.sampled_from([40, 257, 300, 420]),
             "size": st.sampled_from([0, 1, 8, 30]), "retry": st.sampled_from([0, 1, -1])})),
@@ -91,7 +93,7 @@ def run(ctx, c, oracle, per_step=None, link_setup=None, payload_fn=None):
         if c_mt and c_mt[0] > 1.0:
             c_mt = None
     f.timeout_cfg = {"s": s_mt if s_mt is not None else 1.0, "c": c_mt[0] if c_mt else 1.0}
-    with W.World(seed=c["seed"], flavour=c["flavour"], mtu=c["mtu"],
+    with W.World(seed=c["seed"], flavour=c["flavour"], mtu=c["mtu"], t0=c.get("t0", 1000.0),
                  configure=(lambda ctxt: ctxt.setMessageTimeout(s_mt)) if s_mt is not None else None) as w:
         f.w = w
         f.recs = []
